@@ -21,6 +21,7 @@ type SExpr struct {
 	Lit   *big.Int
 	Args  []*SExpr
 	Bound []string
+	Hints []*SExpr // exists j hint e1, e2 :: body - witnesses to try when the exists is to be proved
 	Src   string
 }
 
@@ -136,9 +137,21 @@ func (p *specParser) expr(min int) *SExpr {
 			}
 			break
 		}
+		var hints []*SExpr
+		if h := p.peek(); h.k == "id" && h.s == "hint" {
+			p.next()
+			for {
+				hints = append(hints, p.expr(0))
+				if p.peek().s == "," {
+					p.next()
+					continue
+				}
+				break
+			}
+		}
 		p.expect("::")
 		body := p.expr(0)
-		return &SExpr{Kind: t.s, Bound: bound, Args: []*SExpr{body}}
+		return &SExpr{Kind: t.s, Bound: bound, Hints: hints, Args: []*SExpr{body}}
 	}
 	lhs := p.unary()
 	for {
